@@ -305,6 +305,9 @@ func (g *G) userType() {
 		obj := g.object(2, name)
 		ut.Attr = &m.Attr{Type: obj}
 		tameRecursion(ut.Attr, name)
+		if refsType(obj, name) && g.avoid("C01-gen-hangs-recursive-type-with-union") {
+			dropUnions(ut.Attr)
+		}
 	}
 }
 
@@ -905,4 +908,24 @@ func EffectiveSecurity(d *m.Design, s *m.Service, meth *m.Method) []m.Requiremen
 		return s.Security
 	}
 	return d.API.Security
+}
+
+// dropUnions replaces every union below a (not through user types) by a string.
+func dropUnions(a *m.Attr) {
+	if a == nil || a.Type == nil {
+		return
+	}
+	switch a.Type.Kind {
+	case m.Union:
+		a.Type = &m.Type{Kind: m.String}
+		a.V, a.Default = nil, nil
+	case m.Array:
+		dropUnions(a.Type.Elem)
+	case m.Map:
+		dropUnions(a.Type.Val)
+	case m.Object:
+		for _, f := range a.Type.Fields {
+			dropUnions(f.Attr)
+		}
+	}
 }
